@@ -145,12 +145,27 @@ structure ObjDef where
   fields : List OutField
 deriving Repr, Inhabited
 
+/-- an interface or union type: only its own directives matter here, the runtime type comes from the value -/
+structure AbsDef where
+  name : String
+  dirs : List Use
+deriving Repr, Inhabited
+
 structure DSchema where
   ins : List InDef
   objs : List ObjDef
   impls : List DImpl
   query : String
+  abstracts : List AbsDef := []
 deriving Repr, Inhabited
+
+def DSchema.findAbs (S : DSchema) (n : String) : Option AbsDef := S.abstracts.find? (fun d => d.name == n)
+
+/-- default type resolver of the engine on dict values: the `_typename` key -/
+def runtimeTypeName (v : DV) : Option String :=
+  match v with
+  | .obj kvs => (match kvs.find? (fun p => p.1 == "_typename") with | some (_, .str t) => some t | _ => none)
+  | _ => none
 
 def DSchema.findIn (S : DSchema) (n : String) : Option InDef := S.ins.find? (fun d => d.name == n)
 def DSchema.findObj (S : DSchema) (n : String) : Option ObjDef := S.objs.find? (fun d => d.name == n)
@@ -424,6 +439,21 @@ def complete : Nat → DSchema → Vars → TypeRef → DV → List Sel → R DV
            | .obj _ => execSelections n S vars od r subs
            | _ => none)
       | none =>
+        match S.findAbs tn with
+        | some ad =>
+          -- `abstract_coercer`: the abstract type's hooks (also on null), then the hooks of the RUNTIME object type
+          bind (wrap S.impls "out" ad.dirs ret v) fun r =>
+            (match r with
+             | .null => ret .null
+             | _ =>
+               match runtimeTypeName r with
+               | none => none
+               | some rt =>
+                 match S.findObj rt with
+                 | none => none
+                 | some od => bind (wrap S.impls "out" od.dirs ret r) fun r2 =>
+                     (match r2 with | .obj _ => execSelections n S vars od r2 subs | _ => none))
+        | none =>
         match S.findIn tn with
         | some (.scalar _ dirs) => bind (wrap S.impls "out" dirs ret v) scalarSerialise
         | some (.enum _ dirs vals) => bind (wrap S.impls "out" dirs ret v) (enumSerialise S.impls vals)
